@@ -236,9 +236,9 @@ def judge(ctx, s, corpus):
                      % (short(s["flagged"], 60), where, short(s["repl"], 60)), rep)
         return
     if kind == "fix" and s["located"] and not s.get("posInRange", True):
-        ctx.fail("FixElsewhere %s" % chk, "%s reports `%s` at %s but its fix replaces `%s` (bytes %d-%d), which does not contain the reported position"
-                 % (chk, short(s["text"], 70), where, short(s["flagged"], 60), s["from"], s["to"]), rep)
-        return
+        # unusual but not excluded by the property (a fix may sit at a declaration); what matters is judged below:
+        # the file still type-checks and the diagnostic is gone afterwards
+        ctx.notes.append("%s: the fix of `%s` (%s) does not contain the reported position" % (chk, short(s["text"], 60), where))
     if not s["located"]:
         if "{...}" in s["repl"]:
             ctx.fail("QuotedNoParse %s elided-type" % chk, "%s quotes replacement code that is not Go: `%s` (%s)" % (chk, short(s["text"]), where), rep)
@@ -260,7 +260,9 @@ def judge(ctx, s, corpus):
     if not s["typeKept"]:
         ctx.fail("TypeChanged %s %s->%s" % (chk, s.get("typeBefore"), s.get("typeAfter")), "%s replaces `%s` (%s) by `%s` (%s) (%s)"
                  % (chk, short(s["flagged"], 60), s.get("typeBefore"), short(s["repl"], 60), s.get("typeAfter"), where), rep)
-    if s["stillThere"]:
+    # the same diagnostic at the same place after the edit; a nested construct may legitimately take the place of the repaired one,
+    # but only if the edit touched that place at all
+    if s["stillThere"] or (kind == "fix" and s.get("sameAfter") and not s.get("posInRange", True)):
         ctx.fail("StillReported %s" % chk, "after applying `%s` => `%s` (%s) a fresh analysis reports the same diagnostic at the same place: %s"
                  % (short(s["flagged"], 60), short(s["repl"], 60), where, short(s["text"], 80)), rep)
     if kind == "fix" and s["markersLost"]:
